@@ -1,12 +1,16 @@
 ---------------------------- MODULE MC_YannyFile ----------------------------
 (* Exhaustive exploration of write/append histories (C03) under small constants. *)
 EXTENDS YannyFile, TLC
-CONSTANTS MaxOps, Rich, Deviation     \* Rich: larger append menus; Deviation: "none" | "objectonly" | "clobber"
-VARIABLE nops, nextid, hist, start   \* bound on history length; fresh row / key ids; the calls made so far; the initial situation
+CONSTANTS MaxOps, Rich, Deviation,    \* Rich: larger append menus; Deviation: "none" | "objectonly" | "clobber"
+          TableSetSel                 \* the table sets explored (a subset of TableSetNames)
+VARIABLE nops, nextid, hist, start,  \* bound on history length; fresh row / key ids; the calls made so far; the initial situation
+         tset,                       \* the table set the history starts from (name + every table's columns, for the harness to build)
+         cells,                      \* derived: the cells the object's rows must hold under that table set
+         fresh                       \* derived: what a fresh read of the object's file must return
 
 Keys == {"k1", "enum", "struct", "k0"}
 TablesDef == <<"TA", "TB">>
-mvars == <<fs, obj, model, last, nops, nextid, hist, start>>
+mvars == <<fs, obj, model, last, nops, nextid, hist, start, tset, cells, fresh>>
 
 (* appended material: 0..2 fresh rows spread over the tables, 0..1 fresh pair *)
 RowChoices == [TableSet -> IF Rich THEN {<<>>, <<nextid>>, <<nextid, nextid + 1>>} ELSE {<<>>, <<nextid>>}]
@@ -25,9 +29,15 @@ Init ==
         /\ model = Base
   /\ last = [op |-> "init", out |-> "init"]
   /\ nops = 0 /\ nextid = 10 /\ hist = <<>>
+  \* an unbound empty object has no tables at all: one table set stands for all of them there
+  /\ \E s \in TableSetSel : (start = NoFile => s = "plain") /\ tset = TableSetRec(s)
+  /\ cells = TableCells(tset.name, obj.rows)
+  /\ fresh = FreshRead(tset.name, fs, obj)
 
 Call(op, f, p, r) == [op |-> op, f |-> f, pairs |-> p, rows |-> r]
-Do(A, c) == nops < MaxOps /\ A /\ nops' = nops + 1 /\ nextid' = nextid + 2 /\ hist' = Append(hist, c) /\ UNCHANGED start
+Do(A, c) == /\ nops < MaxOps /\ A /\ nops' = nops + 1 /\ nextid' = nextid + 2 /\ hist' = Append(hist, c) /\ UNCHANGED <<start, tset>>
+            /\ cells' = TableCells(tset.name, obj'.rows)
+            /\ fresh' = FreshRead(tset.name, fs', obj')
 Next ==
   \/ \E f \in Files : \/ Do(Bound /\ WriteNew(f), Call("write", f, <<>>, NoRows))
                       \/ Do(Bound /\ WriteOverExisting(f), Call("write", f, <<>>, NoRows))
@@ -45,4 +55,15 @@ PrefixPreserved == [][\A f \in Files : (fs[f].exists /\ fs'[f].exists) => IsPref
 NoClobber == [][\A f \in Files : (fs[f].exists /\ fs'[f].exists /\ fs[f] # fs'[f]) => last'.op = "append"]_mvars
 NoCreateOnAppend == [][\A f \in Files : (~fs[f].exists /\ fs'[f].exists) => (last'.op = "write" /\ last'.out = "ok")]_mvars
 RefusalsChangeNothing == [][last'.out \in {"raise", "warn"} => UNCHANGED <<fs, obj, model>>]_mvars
+
+(* ---- the table set dimension ---- *)
+ASSUME TableSetLaws == /\ TableSetSel \subseteq TableSetNames /\ TableSetsCoverSharing        \* checked once, at start-up
+                       /\ \A s \in TableSetNames : TableSetWellFormed(s) /\ RowIdRecoverable(s)
+C03_TableSets == tset.name \in TableSetSel /\ tset = TableSetRec(tset.name)
+(* the object's cells are those of the original rows followed by every appended row, in order, whatever the table set *)
+C03_CellsOfModel == cells = TableCells(tset.name, model.rows)
+(* a fresh read of the object's file returns the object: rows, pairs and cells *)
+C03_FreshEqualsObject == fresh.readable => (fresh.rows = obj.rows /\ fresh.pairs = obj.pairs /\ fresh.cells = cells)
+(* no action reads the table set: along every step the line-level state moves as it would under any other table set *)
+TableSetIndependent == [][UNCHANGED tset /\ cells' = TableCells(tset.name, obj'.rows)]_mvars
 =============================================================================
